@@ -7,6 +7,8 @@
    the repeated-execution check of bin/check C14 and cannot be exhibited by the model. *)
 From Coq Require Import ZArith NArith List Bool String Permutation Sorted.
 From FR Require Import Dec Types Match Model MapLoopsSpec Proofs.Determinism.
+From FR.Proofs Require Import InvDefs SweepOrder OracleFree.
+From FR.Proofs Require LiveFacts.
 From FR.Generated Require Import MapLoops.
 Import ListNotations.
 
@@ -41,6 +43,28 @@ Theorem C14_matching_store_order : forall a bs bs' order al,
   end.
 Proof. exact calc_batch_store_order. Qed.
 Print Assumptions C14_matching_store_order.
+
+(* the order in which a matching sweeps the bids is determined by the bids: by price, highest first, equal prices by
+   bid id.  Two valid sweep orders of the same bids are equal *)
+Theorem C14_sweep_order_unique : forall bs ids ids' o o',
+  valid_order bs ids = Some o -> valid_order bs ids' = Some o' -> o = o' /\ ids = ids'.
+Proof. exact valid_order_unique. Qed.
+Print Assumptions C14_sweep_order_unique.
+
+(* hence the oracle of a block (the sweep orders the implementation reports) carries no freedom: from a state
+   satisfying the invariant every valid oracle gives the same transition, with or without an injected fault, namely
+   the one computed from the state itself *)
+Theorem C14_block_oracle_irrelevant : forall s t orc orc',
+  Inv s -> oracle_ok s (OBlock t orc) -> oracle_ok s (OBlock t orc') ->
+  step s (OBlock t orc) = step s (OBlock t orc')
+  /\ forall k, step s (OFaultBlock t orc k) = step s (OFaultBlock t orc' k).
+Proof. exact block_oracle_irrelevant. Qed.
+Print Assumptions C14_block_oracle_irrelevant.
+
+Theorem C14_block_is_a_function_of_the_state : forall s t orc,
+  Inv s -> oracle_ok s (OBlock t orc) -> step s (OBlock t orc) = step s (OBlock t (LiveFacts.natural_orc s)).
+Proof. exact block_is_a_function_of_the_state. Qed.
+Print Assumptions C14_block_is_a_function_of_the_state.
 
 (* the model's step is a function: equal inputs, equal outputs (state, ordered transfers, ordered hook trace) *)
 Theorem C14_step_functional : forall s o s1 s2 r1 r2, step s o = (r1, s1) -> step s o = (r2, s2) -> r1 = r2 /\ s1 = s2.
